@@ -309,14 +309,8 @@ func c15Plumbing(p *Program, r *Report) string {
 		}
 		ok := idx >= 0 && g != nil && idx < len(g.Params)
 		if ok && tgt == "s3api/middlewares.AclParser" {
-			// AclParser has one bool parameter: that is where it must arrive
-			nb := 0
-			for _, prm := range g.Params {
-				if bt, isB := prm.Type().Underlying().(*types.Basic); isB && bt.Kind() == types.Bool {
-					nb++
-				}
-			}
-			ok = nb == 1
+			// it must arrive in the parameter whose test R-C15-4 requires on the create-bucket path
+			ok = refParamName(g.Params[idx]) == "readonly"
 		}
 		if ok && tgt != "s3api/middlewares.AclParser" {
 			initParam = g.Params[idx]
